@@ -4,6 +4,11 @@ import json, os
 ROOT = os.path.dirname(os.path.dirname(os.path.abspath(__file__)))
 
 CHECKS = {
+ "C17": dict(
+   text="Models with parallel lines, repeated operands, nesting, cycles and defective TTUs are built, rendered, reversed twice, queried for cycles and for paths between all ordered label pairs, under every single-deviation schedule of the repository's and the graph library's map iteration (parallel-line maps fully permuted): structure equals the reference graph in both directions, drawing direction flips, rev(rev(g)).GetDOT() == g.GetDOT(), one DOT text per model over all executions, PathExists agrees with reference reachability in g and reversed in rev(g), label lookup, compile-time-cycle and acyclic flags.",
+   note="gonum's map iteration is owned by replacing its reflect-based iterators (build tag safe) and rewriting its range-over-map statements; operand order across different nodes is not observable in a multigraph and not compared; edge conditions of the plain graph have no accessor.",
+   technique="exhaustive exploration of map-iteration schedules in repository and graph library against a reference graph and reachability",
+   design="3/C17"),
  "C04": dict(
    text="Every model of the graph alphabet (all leaves and all binary operator combinations for two relations x tupleset variants, plus three-relation cyclic and nested families) is built under every map-iteration schedule within the budgets (start orders fully permuted on small graphs); on every accepted execution all node and edge weights must equal a reference computed on the AST graph: type sets as least fixpoint with operand-level semantics, weights as longest hop count in the type-relevant subgraph, Infinite iff a cycle is reachable.",
    note="Known finding F10 (edge-wise evaluation of intersection/exclusion operands) is suppressed only where the observed maps equal its defect model exactly; map order is owned by build-time rewriting; operators matched structurally.",
